@@ -53,7 +53,7 @@ func vpHostPath(src string) (string, string) {
 var vpDsts = []string{"http://a.internal:8080/", "http://b.internal:9090/"}
 
 var vpHosts = []string{"", "foo.com", "Foo.com", "bar.com", "FOO.COM", "*.foo.com"}
-var vpPaths = []string{"/", "/a", "/A", "/a/b"}
+var vpPaths = []string{"/A", "/a", "/", "/a/b"}
 
 // vpDef: service and tag are unconstrained symbolic strings (only compared for equality by the
 // code); the source prefix is host+path drawn from a set with letter-case variants.
@@ -66,7 +66,7 @@ func vpDef(i int, cmd Cmd) *RouteDef {
 			d.Src = vpHosts[k]
 		}
 	}
-	if rich || i == 3 {
+	if rich || i >= 2 {
 		p := vp.Choice("path", vp.Param("PATHS"))
 		for k := range vpPaths {
 			if p == k {
@@ -74,7 +74,7 @@ func vpDef(i int, cmd Cmd) *RouteDef {
 			}
 		}
 	} else {
-		d.Src += "/"
+		d.Src += vpPaths[0]
 	}
 	d.Dst = vpDsts[0]
 	if i > 1 && vp.Bool("second-dst") {
@@ -83,7 +83,7 @@ func vpDef(i int, cmd Cmd) *RouteDef {
 	if (rich && i > 1 || i == 3) && vp.Bool("weighted") {
 		d.Weight = 0.25
 	}
-	if vp.Bool("tagged") {
+	if (rich || i >= 2) && vp.Bool("tagged") {
 		d.Tags = []string{vp.String("tag")}
 	}
 	return d
